@@ -572,6 +572,10 @@ spifconf_shell_expand(spif_charptr_t s)
                   }
               }
               if (!builtins[k].name) {
+                  if (!*pbuff) {
+                      /* '%' was the last character; keep it and don't step over the terminator. */
+                      pbuff--;
+                  }
                   newbuff[j] = *pbuff;
               } else {
                   D_CONF(("Call to built-in function %s detected.\n", builtins[k].name));
